@@ -149,6 +149,45 @@ def h_descent(ctx, d, n, r, I, weighted):
         ctx.claim('objective_not_increased', ctx.le(J1, J0))
 
 
+def h_core_update(ctx, idx, weighted):
+    """One update of a rank-2 middle core (2, 2, 2) by als._optimize_core with fixed
+    rational interface matrices and symbolic data, weights, lamb: every slice is the
+    exact minimiser of sum_j w_j (A_j x - y_j)^2 + lamb |x|^2 (normal equations),
+    also when a slice has fewer samples than unknowns."""
+    m = len(idx)
+    alsmod = sys.modules['teneva.als']
+    Q = ctx.array('q', (2, 2, 2))
+    Q0 = Q.copy()
+    rat = lambda a, b: ctx.const(a) / b
+    Yl = np.array([[rat(1 + (3 * j) % 5, 2), rat(-1 - (2 * j) % 3, 3)] for j in range(m)], dtype=Q.dtype)
+    Yr = np.array([[rat(2 - j % 3, 1), rat(1 + (5 * j) % 4, 4)] for j in range(m)], dtype=Q.dtype).T.copy()
+    y = vec(ctx, 'y', m)
+    lamb = ctx.real('lamb')
+    ctx.assume(ctx.gt(lamb, 0))
+    w = None
+    if weighted:
+        w = vec(ctx, 'w', m)
+        for x in w:
+            ctx.assume(ctx.gt(x, 0))
+    i = np.array(idx)
+    Qn = alsmod._optimize_core(Q, i, y, Yl, Yr, lamb=lamb, w=w)
+    ctx.claim('argument_untouched', ctx.all_eq(Q, Q0))
+    ok = []
+    for k in range(2):
+        js = [j for j in range(m) if idx[j] == k]
+        if not js:
+            ok.append(ctx.all_eq(Qn[:, k, :], Q0[:, k, :]))
+            continue
+        for a in range(2):
+            for b in range(2):
+                g = Qn[a, k, b] * lamb
+                for j in js:
+                    pred = sum((Yl[j, a2] * Qn[a2, k, b2] * Yr[b2, j] for a2 in range(2) for b2 in range(2)), 0)
+                    g = g + (pred - y[j]) * Yl[j, a] * Yr[b, j] * (w[j] if w is not None else 1)
+                ok.append(ctx.eq(g, 0))
+    ctx.claim('slices_are_ridge_minimisers', ctx.all_(ok))
+
+
 def h_split(ctx, d, n, r, I, weighted):
     """a+b sweeps == a sweeps then restart for b sweeps ((a,b) = (1,1))."""
     I = [tuple(i) for i in I]
@@ -302,6 +341,10 @@ def instances(tier):
     for I in [[[0, 0], [0, 1], [1, 0]], [[1, 1], [0, 1], [1, 0]]] if quick else []:
         out.append({'func': 'h_sweeps', 'params': {'d': 2, 'n': 2, 'r': 2, 'I': I, 'weighted': True, 'nswp': 1},
                     'opts': {'generic_divisors': True}})
+    # one core update with fewer (differently weighted) samples in a slice than unknowns
+    for idx in ([0, 0, 1], [0, 1, 0], [1, 1, 1, 0]):
+        for wt in (True, False):
+            out.append({'func': 'h_core_update', 'params': {'idx': idx, 'weighted': wt}, 'opts': {'generic_divisors': True}})
     for I in (_layouts(3, 2, 2)[:4] if quick else _layouts(3, 2, 2) + _layouts(3, 2, 3)[::7]):
         out.append({'func': 'h_sweeps', 'params': {'d': 3, 'n': 2, 'r': 1, 'I': I, 'weighted': False, 'nswp': 1},
                     'opts': {'generic_divisors': True}})
